@@ -111,6 +111,12 @@ func (fc *FnCtx) callFunc(fr *Frame, st *State, reach string, callee *ssa.Functi
 		return h(fc, fr, st, reach, args, call)
 	}
 	if con := fc.eng.contractFor(name, fc.props); con != nil && !con.Inline {
+		if con.Effect != "nonblocking" && (len(st.nbLocks) > 0 || (fc.con != nil && fc.con.Effect == "nonblocking")) {
+			fc.blockingOp(fr, st, reach, "call of "+shortName(callee)+" (not declared non-blocking)")
+		}
+		if con.Effect == "" {
+			fc.unboundedWait(fr, reach, "call of "+shortName(callee)+" (no blocking effect declared)")
+		}
 		return fc.callByContract(fr, st, reach, con, callee, args, call)
 	}
 	if len(callee.Blocks) > 0 && fc.eng.inRepo(callee) {
@@ -126,6 +132,10 @@ func (fc *FnCtx) callFunc(fr *Frame, st *State, reach string, callee *ssa.Functi
 		return fc.unknownCall(fr, st, reach, "in-repo "+shortFn(callee)+" (not inlined: depth/recursion)", resT, args, true)
 	}
 	// external function without a model
+	if blockingExternal(name) {
+		fc.blockingOp(fr, st, reach, "call of "+name)
+		fc.unboundedWait(fr, reach, "call of "+name)
+	}
 	return fc.unknownCall(fr, st, reach, name, resT, args, false)
 }
 
@@ -523,6 +533,16 @@ func pureExternal(name string) bool {
 	name = strings.TrimPrefix(name, "(")
 	name = strings.TrimPrefix(name, "*")
 	for _, p := range []string{"context.", "golang.org/x/net/context.", "fmt.", "strings.", "strconv.", "errors.", "time.", "math.", "github.com/opentracing/opentracing-go", "unicode", "net.", "os.", "runtime.", "reflect.", "sync/atomic.", "go.uber.org/atomic."} {
+		if strings.HasPrefix(name, p) {
+			return true
+		}
+	}
+	return false
+}
+
+// blockingExternal: standard-library calls that may block indefinitely.
+func blockingExternal(name string) bool {
+	for _, p := range []string{"io.ReadFull", "io.Copy", "io.ReadAtLeast", "time.Sleep", "(*sync.WaitGroup).Wait", "(*sync.Cond).Wait", "net.Dial", "(*net.Dialer).Dial", "io/ioutil.ReadAll", "io.ReadAll"} {
 		if strings.HasPrefix(name, p) {
 			return true
 		}
